@@ -61,3 +61,24 @@ reg("C27", "tsx",
     "ring model; returned identifiers, new indices, the allocated count and acceptance of overflowing calls are checked on "
     "every transition.",
     "explicit-state BFS of the real elaborated circuit against a ring reference model")
+
+reg("C19", "tsx",
+    "Complete reachability analysis of Serializer (1-3 clients, queue depth 1-3; the server is two real Adapters driven by the "
+    "explorer under the in-order-server assumption) against a queue of client ids, and of ArgumentsToResultsZipper against two "
+    "queues; every request/response interleaving of every length for these configurations.",
+    "explicit-state BFS of the real elaborated circuit against a queue reference model")
+reg("C21", "tsx",
+    "Complete reachability analysis of MemoryBank for all four (transparent, read_on_resp) combinations with 1-2 read/write "
+    "ports, with and without write granularity (thorough: depth up to 4, (2,2) ports, every multiport memory_type, the larger "
+    "ones capped and reported) against an ideal array plus per-port pending-response queues.",
+    "explicit-state BFS of the real elaborated circuit against an ideal-memory reference model")
+reg("C22", "tsx",
+    "Complete reachability analysis of AsyncMemoryBank (depth 2-4, width 1-4, up to 3x3 ports, granularity) against an ideal "
+    "array with start-of-cycle read semantics.",
+    "explicit-state BFS of the real elaborated circuit against an ideal-memory reference model")
+reg("C23", "tsx",
+    "Miter of each multiport memory against a real amaranth.lib.memory.Memory with identical init/ports/transparency/granularity, "
+    "BFS over the joint state with every port valuation: MultiReadMemory completely, XOR/ILVT memories for all port histories up "
+    "to the depth reported per configuration (3 quick, 4-6 thorough). One open known finding (ILVT + write granularity).",
+    "explicit-state BFS of a miter circuit (implementation vs. Amaranth's own memory), depth-bounded for the XOR/ILVT memories",
+    note=E1_NOTE + " amaranth.lib.memory.Memory is trusted as the ideal memory; XOR/ILVT configurations are depth-bounded, not complete.")
